@@ -584,6 +584,9 @@ def same_expr(a, b, depth=0):
     if k == "call":
         if a.bb is not None and a.bb == b.bb and a.q == b.q:
             return True
+        # argument-less associated consts-as-functions (Sample::size(), size_of::<T>()) are the same value
+        if a.q is not None and a.q == b.q and (a.rq == b.rq) and not a.args and not b.args:
+            return True
         return False
     if k == "bin":
         return a.op == b.op and same_expr(a.a, b.a, depth + 1) and same_expr(a.b, b.b, depth + 1)
